@@ -245,6 +245,9 @@ def run_case(W, rec, cfg, ops):
         if out != expect_all:
             rec.violation("C09/silent-truncation", f"drain returned {out!r}, expected {expect_all!r}; {case}", case, monitor="model")
             return
+        if is_max and len(data) > L:
+            rec.violation("C09/max-limit-drain-silently-truncates", f"body of {len(data)} bytes, maximum {L}: drain returned {out!r} without RequestEntityTooLarge; {case}", case, monitor="model")
+            return
     if wrap == "text" and term is None and err is None and not (short and not is_max):
         if out != data[:max(L, 0)]:
             rec.violation("C09/silent-truncation", f"text drain returned {out!r}; {case}", case, monitor="model")
@@ -356,6 +359,9 @@ def run_input_stream(W, rec):
                 if data != exp:
                     rec.violation("C09/terminated-stream-not-passed-through", f"{data!r}; {case}", case, monitor="decision-table")
             else:
+                if got_exc is None and len(body) > lim:
+                    rec.violation("C09/max-limit-drain-silently-truncates", f"body of {len(body)} bytes, max_content_length {lim}: read() returned {data!r} without RequestEntityTooLarge; {case}", case, monitor="decision-table")
+                    continue
                 if got_exc is None and (len(data) > lim or not body.startswith(data)):
                     rec.violation("C09/max-exceeded-on-terminated-stream", f"{data!r}; {case}", case, monitor="decision-table")
                 if inp.pos > lim:
